@@ -147,6 +147,17 @@ def run_discr(seed, budget, want=("dispatch", "roundtrip", "tagged", "purity")):
                     if s[1] != exp: fail("serialized-union-value-is-not-the-alternative-plus-the-discriminator", u, value=v, got=s[1], expected=exp)
                     back = out(lambda: deserialize(U, s[1]))
                     if back != ("ok", v): fail("discriminated-value-does-not-round-trip", u, value=v, serialized=s[1], back=back)
+                    # the same under a renaming aliaser: every key of the output - the discriminator included - is renamed,
+                    # and the renamed output deserializes back under the same aliaser
+                    al = lambda x: "al_" + x
+                    sa = out(lambda: serialize(U, v, aliaser=al))
+                    if sa[0] == "ok":
+                        hist["aliaser-roundtrips"] += 1
+                        if isinstance(sa[1], dict) and any(not k.startswith("al_") for k in sa[1] if not k.startswith("p_")):
+                            fail("serialized-union-key-not-aliased", u, value=v, got=sa[1])
+                        backa = out(lambda: deserialize(U, sa[1], aliaser=al))
+                        if backa != ("ok", v): fail("discriminated-value-does-not-round-trip-under-an-aliaser", u, value=v, serialized=sa[1], back=backa)
+                    else: fail("serialization-of-a-discriminated-value-raises", u, value=v, got=sa)
     if "tagged" in want:
         TU = ns["TU"]
         for d, ok in (({"a": 1}, True), ({"b": "s"}, True), ({"a": 1, "b": "s"}, False), ({}, False), ({"c": 1}, False)):
